@@ -41,7 +41,9 @@ def prepare(name, cfg, overrides=None):
         pat = re.compile(r"^(\s*)%s\s*(=|<-)\s*\S.*$" % re.escape(k), re.M)
         if not pat.search(text):
             raise TlcFailure("cfg %s has no constant %s" % (cfg, k))
-        text = pat.sub(lambda m: "%s%s %s %s" % (m.group(1), k, m.group(2), v), text)
+        sv = str(v)
+        op = "=" if re.match(r'^(\{|-?\d|"|TRUE$|FALSE$)', sv) else "<-"
+        text = pat.sub(lambda m: "%s%s %s %s" % (m.group(1), k, op, sv), text)
     with open(os.path.join(d, cfg), "w") as fh:
         fh.write(text)
     return d
